@@ -3,9 +3,12 @@
 package cache
 
 import (
+	"context"
+	"net/netip"
 	"time"
 
 	"github.com/miekg/dns"
+	"github.com/semihalev/sdns/config"
 	"github.com/semihalev/sdns/middleware"
 )
 
@@ -167,3 +170,86 @@ func VerifC08DenialProofExpiry(now time.Time, maxTTL time.Duration, cutUntil tim
 
 // VerifC08MaxDenialProofTTL reads the ceiling constant.
 func VerifC08MaxDenialProofTTL() time.Duration { return maxDenialProofTTL }
+
+type verifC08Stub struct {
+	cut time.Time
+	key uint64
+	msg func(req *dns.Msg) *dns.Msg
+}
+
+func (q *verifC08Stub) Query(ctx context.Context, req *dns.Msg) (*dns.Msg, error) {
+	// what the resolver behind the prefetch sub-pipeline does: report the lease it walked
+	middleware.ResponseMetaFrom(ctx).BoundCutFor(q.cut, q.key)
+	return q.msg(req), nil
+}
+
+func verifC08Msg(kind string, ttl uint32, ecsScope uint8) *dns.Msg {
+	m := new(dns.Msg)
+	m.SetQuestion("write.c08.example.", dns.TypeA)
+	m.Response = true
+	soa := &dns.SOA{Hdr: dns.RR_Header{Name: "c08.example.", Rrtype: dns.TypeSOA, Class: dns.ClassINET, Ttl: ttl},
+		Ns: "ns.c08.example.", Mbox: "h.c08.example.", Serial: 1, Refresh: 60, Retry: 60, Expire: 60, Minttl: ttl}
+	switch kind {
+	case "pos":
+		m.Answer = []dns.RR{&dns.A{Hdr: dns.RR_Header{Name: "write.c08.example.", Rrtype: dns.TypeA, Class: dns.ClassINET, Ttl: ttl}, A: []byte{192, 0, 2, 1}}}
+	case "nx":
+		m.Rcode = dns.RcodeNameError
+		m.Ns = []dns.RR{soa}
+	case "nodata":
+		m.Ns = []dns.RR{soa}
+	}
+	_ = ecsScope
+	return m
+}
+
+// VerifC08Write stores an answer of the given kind through one of the REAL write
+// entry points of the answer cache with delegation cut `cut` and returns the cutUntil
+// / cutKey the stored entry carries. Paths: "key" (ResponseWriter's
+// SetFromResponseWithKey), "subq" (Resolver.subQuery's SetFromResponseWithCut), "scoped"
+// (RFC 7871 SetFromResponseScoped; ecsCap is cache_limit_ttl, 0 = off), "prefetch" /
+// "prefetch-ecs" (PrefetchQueue.processPrefetch, claimed by a plain / an ECS client: the
+// refresh's resolver reports `cut` into the context's ResponseMeta).
+func VerifC08Write(path, kind string, ttl uint32, cut time.Time, cutKey uint64, ecsCap time.Duration) (gotCut time.Time, gotKey uint64, found bool) {
+	cfg := &config.Config{CacheSize: 1024, Expire: 600, Prefetch: 50}
+	cfg.ECS.CacheLimitTTL.Duration = ecsCap
+	c := New(cfg)
+	defer c.Stop()
+	msg := verifC08Msg(kind, ttl, 0)
+	key := CacheKey{Question: msg.Question[0], CD: false}.Hash()
+	read := func(k uint64, not *CacheEntry) (time.Time, uint64, bool) {
+		if v, ok := c.store.positive.cache.Get(k); ok {
+			if e, ok := v.(*CacheEntry); ok && e != not {
+				return e.cutUntil, e.cutKey, true
+			}
+		}
+		return time.Time{}, 0, false
+	}
+	switch path {
+	case "key":
+		c.store.SetFromResponseWithKey(key, msg, cut, cutKey)
+		return read(key, nil)
+	case "subq":
+		c.store.SetFromResponseWithCut(msg, false, cut, cutKey)
+		return read(key, nil)
+	case "scoped":
+		scope := netip.MustParsePrefix("198.51.100.0/24")
+		sk := CacheKey{Question: msg.Question[0], CD: false, Scope: scope}.Hash()
+		c.store.SetFromResponseScoped(sk, msg, scope, cut, cutKey)
+		return read(sk, nil)
+	case "prefetch", "prefetch-ecs":
+		// the claimed entry was learned under an older, longer cut; the refresh walks `cut`
+		c.store.SetFromResponseWithKey(key, msg, cut.Add(time.Hour), 1)
+		v, ok := c.store.positive.cache.Get(key)
+		if !ok {
+			return time.Time{}, 0, false
+		}
+		claimed := v.(*CacheEntry)
+		c.SetPrefetchQueryer(&verifC08Stub{cut: cut, key: cutKey, msg: func(*dns.Msg) *dns.Msg { return verifC08Msg(kind, ttl, 0) }})
+		claimed.prefetch.Store(true)
+		req := new(dns.Msg)
+		req.SetQuestion("write.c08.example.", dns.TypeA)
+		c.prefetchQueue.processPrefetch(PrefetchRequest{Request: req, Key: key, Cache: c, Entry: claimed, RequestHadECS: path == "prefetch-ecs"})
+		return read(key, claimed)
+	}
+	return time.Time{}, 0, false
+}
